@@ -2,6 +2,7 @@ import Log4rsModel.Rolling.LemmasNoLoss
 import Log4rsModel.Rolling.LemmasWindow
 import Log4rsModel.Rolling.LemmasLockSmall
 import Log4rsModel.Roller.LemmasName
+import Log4rsModel.Properties.C04
 /-
 C05 — Rolling appender never loses, duplicates, reorders or splits records.
 
@@ -336,5 +337,18 @@ example :
       [.append [[1, 1, 1]] none, .append [[2, 2, 2]] none, .append [[3, 3, 3]] none, .append [[4]] none]
     Spec.readBack rc.nameOf 0 2 ['a'] res.2.disk.get? = [2, 2, 2, 3, 3, 3, 4] := by
   decide +kernel
+
+/-- Re-export for the rolling appender's FIRST segment (no rotation yet): while the policy never asks
+for a rotation `RollingFileAppender::append` is `FileAppender::append` (same `get_writer` open — always
+`O_APPEND`, truncate mode empties the file explicitly, commit 3018b7b —, same 1024-byte `BufWriter`,
+record encoded into memory first, flush before the return), so on multi-handle histories (a second
+appender on the path, a foreign `>>` writer, an external truncation, restarts, failing encoders) what
+any reader sees after every operation is the file-appender specification. This is C04's theorem,
+unchanged; the tie that the real rolling appender follows this model is the `seqx` case kind
+(`Driver/C05.lean::handleSeqx`, `harness/src/c05.rs::exec_seqx`). -/
+theorem C05_no_rotation_is_file_appender_spec (m : OpenMode) (pre : Option Bytes) (ops : List MOp)
+    (hv : validOps 1 ops = true) :
+    Handles.traceV true m (Handles.init m pre true) ops = Spec.expectedTraceM m pre ops :=
+  C04_multi_trace_eq_spec m pre ops hv
 
 end Log4rs.Rolling
